@@ -1001,7 +1001,7 @@ func nonNilError(v ssa.Value, at *ssa.BasicBlock, depth int) bool {
 		return nonNilError(x.X, at, depth+1)
 	case *ssa.UnOp:
 		if x.Op == token.MUL {
-			if g, ok := x.X.(*ssa.Global); ok && strings.HasPrefix(g.Name(), "Err") {
+			if g, ok := x.X.(*ssa.Global); ok && (strings.HasPrefix(g.Name(), "Err") || strings.HasPrefix(g.Name(), "err")) {
 				return true
 			}
 		}
